@@ -35,6 +35,8 @@ func (e *Engine) onMapWrite(c *FnCtx, st *State, m string, pos token.Pos)       
 func (e *Engine) onSliceWrite(c *FnCtx, st *State, s Val, cond string, pos token.Pos) {}
 func (e *Engine) onOpaqueCall(c *FnCtx, st *State, name string, args []Val, pos token.Pos) {}
 func (e *Engine) onCallback(c *FnCtx, st *State, cb *CallbackSpec, fv Val, args []Val, pos token.Pos) {
+	h := c.cbCallsComp()
+	c.heapSet(st, h, "(+ "+c.heapGet(st, h)+" 1)")
 }
 
 func (e *Engine) onGo(c *FnCtx, fr *Frame, st *State, i *ssa.Go) {
@@ -43,7 +45,39 @@ func (e *Engine) onGo(c *FnCtx, fr *Frame, st *State, i *ssa.Go) {
 	c.assumed["goroutine spawn: body verified separately, interleaving not modelled"] = true
 }
 
-func (e *Engine) evalGhostCall(c *FnCtx, env *Env, x *ECall) (Val, bool) { return Val{}, false }
+func (e *Engine) evalGhostCall(c *FnCtx, env *Env, x *ECall) (Val, bool) {
+	if v, ok := c.evalChanSpec(env, x); ok {
+		return v, true
+	}
+	switch x.Fun {
+	case "lastcall":
+		// lastcall(callee): the result of the most recent call of the named callee in the verified function
+		name := x.Args[0].(*EIdent).Name
+		v, ok := c.lastCall[name]
+		if !ok {
+			panic(specError("lastcall(" + name + "): no such call on this path"))
+		}
+		return v, true
+	case "cbfn":
+		n := c.eval(env, x.Args[0])
+		return Val{T: types.Typ[types.UnsafePointer], E: "(select " + c.heapGet(env.st, c.comp("ghost$cbfn", "(Array Int Int)")) + " " + n.E + ")"}, true
+	case "cbresIface", "cbresInt", "cbresBool":
+		n := c.eval(env, x.Args[0])
+		k := x.Args[1].(*EInt).V
+		srt := strings.TrimPrefix(x.Fun, "cbres")
+		t := map[string]types.Type{"Iface": types.NewInterfaceType(nil, nil), "Int": tMath, "Bool": tBool}[srt]
+		return Val{T: t, E: "(select " + c.heapGet(env.st, c.comp("ghost$cbres$"+srt+"$"+k, "(Array Int "+srt+")")) + " " + n.E + ")"}, true
+	case "cbcalls":
+		return Val{T: tMath, E: c.heapGet(env.st, c.cbCallsComp())}, true
+	case "cancelled":
+		f := c.eval(env, x.Args[0])
+		return Val{T: tBool, E: "(select " + c.heapGet(env.st, c.cancelComp()) + " " + f.E + ")"}, true
+	}
+	return Val{}, false
+}
+
+func (c *FnCtx) cbCallsComp() string { return c.comp("ghost$cbcalls", "Int") }
+func (c *FnCtx) cancelComp() string  { return c.comp("ghost$cancelled", "(Array Int Bool)") }
 
 // ---- callbacks / patterns ----
 
@@ -208,31 +242,23 @@ func init() {
 	preludeTable["math.IsNaN"] = func(c *FnCtx, fr *Frame, st *State, fn *ssa.Function, args []Val, pos token.Pos) *Val {
 		return &Val{T: tBool, E: "((_ is nan) " + args[0].E + ")"}
 	}
+	preludeTable["context.WithCancel"] = func(c *FnCtx, fr *Frame, st *State, fn *ssa.Function, args []Val, pos token.Pos) *Val {
+		ctx := c.fresh("ctx", fn.Signature.Results().At(0).Type(), st)
+		c.assume(st, "(not (= (i-tag "+ctx.E+") 0))")
+		ref := c.newRef(st, "cancel")
+		c.nonNil[ref] = true
+		h := c.cancelComp()
+		c.heapSet(st, h, "(store "+c.heapGet(st, h)+" "+ref+" false)")
+		cf := Val{T: fn.Signature.Results().At(1).Type(), E: ref, Cancel: true}
+		return &Val{T: fn.Signature.Results(), Tuple: []Val{ctx, cf}}
+	}
+	preludeTable["context.WithTimeout"] = func(c *FnCtx, fr *Frame, st *State, fn *ssa.Function, args []Val, pos token.Pos) *Val {
+		return preludeTable["context.WithCancel"](c, fr, st, fn, args, pos)
+	}
 	preludeTable["math.Floor"] = func(c *FnCtx, fr *Frame, st *State, fn *ssa.Function, args []Val, pos token.Pos) *Val {
 		x := args[0].E
 		return &Val{T: tFloat, E: c.sc.Define("floor", sFlt, "(ite ((_ is fin) "+x+") (fin (to_real (to_int (fv "+x+")))) "+x+")")}
 	}
-}
-
-// ---- channels (ghost sequences) ----
-
-func (c *FnCtx) chanInit(st *State, ref string, size string) {}
-
-func (c *FnCtx) chanSend(fr *Frame, st *State, ch, v Val, pos token.Pos) {
-	c.unsupported("channel send")
-}
-
-func (c *FnCtx) chanRecv(fr *Frame, st *State, ch Val, commaOk bool, t types.Type, pos token.Pos) Val {
-	c.unsupported("channel receive")
-	return Val{}
-}
-
-func (c *FnCtx) chanClose(fr *Frame, st *State, ch Val, pos token.Pos) {
-	c.unsupported("channel close")
-}
-
-func (c *FnCtx) execSelect(fr *Frame, st *State, i *ssa.Select) {
-	c.unsupported("select")
 }
 
 var _ = fmt.Sprintf
